@@ -57,6 +57,15 @@ void COSdoReset(CO_SDO *srv, uint8_t num, CO_NODE *node)
     srvnum->Seg.Num      = 0;
     srvnum->Seg.Size     = 0;
     srvnum->Blk.State    = BLK_IDLE;
+    srvnum->Blk.Size     = 0;
+    srvnum->Blk.Len      = 0;
+    srvnum->Blk.SegNum   = 0;
+    srvnum->Blk.SegCnt   = 0;
+    srvnum->Blk.SegOk    = 0;
+    srvnum->Blk.LastValid = 0;
+    srvnum->Abort        = 0;
+    srvnum->Idx          = 0;
+    srvnum->Sub          = 0;
 }
 
 WEAK_TEST
